@@ -152,13 +152,15 @@ func (vm *VM) Run(globals Object, args ...Object) (Object, error) {
 // lose an Abort call in between.
 func (vm *VM) runSeq(seq int64, globals Object, args ...Object) (Object, error) {
 	root := vm.rootVM()
-	if root == vm {
-		vm.abortSeq.Store(seq)
-	}
 	verifPoint("run.enter", vm)
 	vm.mu.Lock()
 	defer vm.mu.Unlock()
 	defer verifPoint("run.exit", vm)
+	if root == vm {
+		// published only once the previous run is over: a Run waiting for the
+		// mutex must not move the baseline of the run still in progress.
+		vm.abortSeq.Store(seq)
+	}
 	verifPoint("run.locked", vm)
 
 	if vm.bytecode == nil || vm.bytecode.Main == nil {
